@@ -431,14 +431,41 @@ func runReplays(dir string, files []string) (map[string]*replayOutcome, string, 
 			plain = append(plain, f)
 		}
 	}
+	// counterexample replays get a process each: package-level memory written by the code under test
+	// (a memoised value, a cache) must not leak from one replay into the next. Path witnesses share
+	// one process (on a tree where the property holds there is no such memory to leak).
+	type grp struct {
+		files []string
+		race  bool
+	}
+	var groups []grp
+	var wit []string
+	for _, f := range plain {
+		if strings.Contains(filepath.Base(f), ".witness.") {
+			wit = append(wit, f)
+		} else {
+			groups = append(groups, grp{[]string{f}, false})
+		}
+	}
+	if len(wit) > 0 {
+		groups = append([]grp{{wit, false}}, groups...)
+	}
+	var racedWit []string
+	for _, f := range raced {
+		if strings.Contains(filepath.Base(f), ".witness.") {
+			racedWit = append(racedWit, f)
+		} else {
+			groups = append(groups, grp{[]string{f}, true})
+		}
+	}
+	if len(racedWit) > 0 {
+		groups = append(groups, grp{racedWit, true})
+	}
 	res := map[string]*replayOutcome{}
 	var outs []string
 	var firstErr error
-	for i, group := range [][]string{plain, raced} {
-		if len(group) == 0 {
-			continue
-		}
-		r, out, err := runReplayGroup(dir, group, i == 1)
+	for _, g := range groups {
+		r, out, err := runReplayGroup(dir, g.files, g.race)
 		for k, v := range r {
 			res[k] = v
 		}
